@@ -141,6 +141,15 @@ def render_html(res):
             body.append('<map name="m%d"><area shape="rect" coords="0,0,1,1" href="%s" alt="a"></map>' % (i, sp))
         else:
             body.append('<a href="%s">link</a>' % sp)
+    if getattr(res, 'omit_html_tag', False) and not res.inlines and not res.base_href:
+        # (only pages whose every reference is an ordinary link: a document without the start tag is also read by wpull's
+        # JavaScript scraper, which takes every quoted URL for a link - for embedded objects that is a reading of its own)
+        # the html element's tags are optional (HTML 8.1.2.4); an inline script repeats the first link of the page as a string
+        # (a page's declaration - nofollow - holds for the whole document, whichever scrapers look at it)
+        if res.links:
+            head.append('<script>var first = "%s"; function go() { location = first; }</script>' % res.links[0][1].replace('"', '%22'))
+        return ('<!DOCTYPE html>\n<head>%s</head>\n<body>\n%s\n%s</body>\n'
+                % (''.join(head), '\n'.join(body), res.extra_html)).encode('utf-8')
     return ('<!DOCTYPE html>\n<html><head>%s</head>\n<body>\n%s\n%s</body></html>\n'
             % (''.join(head), '\n'.join(body), res.extra_html)).encode('utf-8')
 
@@ -208,11 +217,12 @@ class Site:
 PAGE_PATHS = ['/', '/index.html', '/a.html', '/b.html', '/d1/', '/d1/p1.html', '/d1/p2.html', '/d1/d2/', '/d1/d2/p3.html',
               '/d1/d2/p4.html', '/other/', '/other/q.html', '/d1/x%20y.html', '/UP/Case.html',
               '/d10/s.html', '/d1-old/t.html', '/other2/u.html', '/d1.html',
-              '/A.html', '/d1/P1.html', '/up/case.html', '/caf%C3%A9/m.html']    # differ from others by letter case only: distinct URLs
+              '/A.html', '/d1/P1.html', '/up/case.html', '/caf%C3%A9/m.html',
+              '/list.jsp', '/d1/view.jsp']         # HTML pages whose names make other scrapers look at them too ('.js' in the path)    # differ from others by letter case only: distinct URLs
 
 
 def gen_site(tape, nhosts=1, npages=6, with_requisites=True, with_redirects=True, start_in_subdir=False, foreign=False,
-             cross_host_links=True, main_port=None):
+             cross_host_links=True, main_port=None, iframe_chance=(1, 8)):
     """Generate a site graph. Returns (site, start resources)."""
     site = Site()
     main = site.add_origin('http', 'site.test', main_port)
@@ -276,6 +286,9 @@ def gen_site(tape, nhosts=1, npages=6, with_requisites=True, with_redirects=True
     # (wpull, like other crawlers, also takes the href of <base> for a link: the base is always a directory page of the site,
     # and the reference knows it as a link of the document)
     for p in pages:
+        if tape.chance(1, 6, 'site.omit_html_tag'):
+            p.omit_html_tag = True
+    for p in pages:
         if tape.chance(1, 8, 'site.base_href'):
             dirs = [d for d in pages if d.path.endswith('/') and d.query is None and d.origin.key() == p.origin.key()]
             if dirs:
@@ -295,6 +308,7 @@ def gen_site(tape, nhosts=1, npages=6, with_requisites=True, with_redirects=True
             redirects.append(rr)
             pages[0].links.append((rr, spell(tape, pages[0], rr)))
     # links
+    frames = []
     everything = pages + redirects
     for p in pages:
         n = tape.between(0, 4, 'site.nlinks')
@@ -310,7 +324,7 @@ def gen_site(tape, nhosts=1, npages=6, with_requisites=True, with_redirects=True
         for a in assets:
             if tape.chance(1, 3, 'site.inline'):
                 p.inlines.append((a, spell(tape, p, a), tape.choice(('css', 'css', 'css', 'css:StyleSheet', 'css:STYLESHEET', 'css:alternate StyleSheet'), 'site.css.rel') if a.kind == 'css' else tape.choice(('img', 'img', 'embed', 'input'), 'site.inline.tag')))
-        if tape.chance(1, 8, 'site.iframe'):
+        if tape.chance(iframe_chance[0], iframe_chance[1], 'site.iframe'):
             # a document shown in a frame: an embedded object that is an HTML page with links of its own. It is reachable
             # through the frame only (a page that is linked as well as framed would be at the mercy of which discovery
             # record the table keeps, C01-K3)
@@ -319,16 +333,31 @@ def gen_site(tape, nhosts=1, npages=6, with_requisites=True, with_redirects=True
             fr = site.add(p.origin, p.dir + ('frame%d.html' if tape.chance(2, 3, 'site.iframe.ext') else 'view%d') % len(site.order), 'page')
             for _ in range(tape.between(0, 2, 'site.iframe.nlinks')):
                 dst = pages[tape.draw(len(pages), 'site.iframe.link')]
+                # (often a page that a sibling of the framing page links to: reachable at one depth through the sibling and at a
+                # greater one through the frame)
+                nephews = [d for q in pages if q is not p for d, _ in q.links if not isinstance(d, str) and d.kind == 'page' and d is not p]
+                if nephews and iframe_chance[1] < 8 and tape.chance(2, 3, 'site.iframe.nephew'):
+                    dst = nephews[tape.draw(len(nephews), 'site.iframe.nephew.which')]
                 if cross_host_links or dst.origin.key() == fr.origin.key():
                     fr.links.append((dst, spell(tape, fr, dst)))
             if tape.chance(1, 2, 'site.iframe.leaf'):
                 leaf = site.add(p.origin, p.dir + 'only-via-frame%d.html' % len(site.order), 'page')       # reachable through the framed document only
                 fr.links.append((leaf, spell(tape, fr, leaf)))
             p.inlines.append((fr, spell(tape, p, fr), tape.choice(('iframe', 'iframe', 'img'), 'site.iframe.tag')))
+            frames.append((p, fr))
             if a.kind == 'bin' and tape.chance(1, 6, 'site.link_to_asset'):
                 # the same object may be linked (<a>) as well as embedded. Only leaf objects: a style sheet reached both
                 # ways would make everything below it depend on which record the table happened to keep (C01-K2/K3)
                 p.links.append((a, spell(tape, p, a)))
+    # a framed document may link to what a LATER sibling of its framing page links to: that page is then reachable at one depth
+    # through the sibling and at a greater one through the frame, and the frame is found first
+    if iframe_chance[1] < 8:
+        for p, fr in frames:
+            later = [d for q in pages[pages.index(p) + 1:] for d, _ in q.links if not isinstance(d, str) and d.kind == 'page' and d is not p and d is not fr]
+            if later and tape.chance(2, 3, 'site.iframe.nephew2'):
+                d = later[tape.draw(len(later), 'site.iframe.nephew2.which')]
+                if cross_host_links or d.origin.key() == fr.origin.key():
+                    fr.links.append((d, spell(tape, fr, d)))
     # make sure the start page links somewhere
     start = pages[0]
     if not start.links and len(pages) > 1:
